@@ -386,7 +386,8 @@ def run(ctx):
             if r["family"] in fams_bad:
                 what = r["bad"][0].splitlines()[0][:200]
                 kind = "stall" if what.startswith("STALL") else ("panic" if what.startswith("panic") else
-                                                                  ("stale-engine" if what.startswith("rule change after") else "no-wellformed-response"))
+                                                                  ("stale-engine" if what.startswith("rule change after") else
+                                                                   ("list-state-corrupted" if what.startswith("list state corrupted") else "no-wellformed-response")))
                 ctx.disagreement("gated:%s:%s" % (kind, r["family"]), {"family": r["family"], "round": r["round"], "bad": [b[:8000] for b in r["bad"]], "replies": r["replies"]},
                                  ("DHCP lease removed while a request that has looked it up is in flight: %s" % what) if r.get("round", 0) >= 2000
                                  else ("refresh worker parked in a list download during a list operation: %s" % what) if r.get("round", 0) >= 1000
@@ -408,7 +409,7 @@ def run(ctx):
     parked = sum(r.get("parked", 0) for r in grows)
     if parked == 0 and not ctx.violations:
         raise vlib.Inconclusive("gated driver never parked a request in the upstream")
-    wparked = [r for r in grows if 1000 <= r.get("round", 0) < 2000]
+    wparked = [r for r in grows if 1000 <= r.get("round", 0) < 1500]
     dparked = [r for r in grows if r.get("round", 0) >= 2000]
     if (not dparked or not any(r.get("parked") for r in dparked)) and not ctx.violations:
         raise vlib.Inconclusive("gated driver never removed a DHCP lease under a request in flight")
